@@ -59,6 +59,8 @@ def replay(run, cache, tv):
             run.count("noncanonical_mrp_roundtrip_only")
     elif op == "log_se2":
         c, s, h = tv["cs"]; th = math.atan2(s, c)
+        if tv.get("wrap"):
+            th = th - 2 * math.pi * (1 if th > 0 else -1)
         p = np.array(tv["p"], float)
         u = p if th == 0 else th * np.array(tv["ur"], float) / (2.0 * (h - c))
         X = L.SE2.elem(ca.DM([p[0], p[1], th]))
